@@ -10,6 +10,20 @@ package main
 //	term      exits delayMs after SIGTERM; ignores end of input
 //	stubborn  ignores both (a safety timer ends it after 90 s so nothing leaks)
 //
+// Process tree: the agent may first start a descendant ("child linger"), in its
+// own process group, that
+//
+//	inherit   inherited the agent's standard error and outlives the agent
+//	own       has its own standard error (/dev/null) and outlives the agent
+//	dies      inherited standard error and exits as soon as the agent is gone
+//	          (end of file on a pipe whose write end only the agent holds)
+//
+// The descendant ignores SIGTERM/SIGHUP, records nothing, and ends by itself
+// when its leash (the case's scratch directory) disappears or after 300 s. Its
+// pid is written to the log; the orchestrator - registered as child subreaper so
+// that the orphan is re-parented to it - always kills and reaps it afterwards,
+// on the watchdog path as well. Only the agent must be gone when Close returns.
+//
 // It prints "ready" once its signal dispositions are in place and appends what
 // it saw ("eof", "term") to the log. The parent wraps it in the real
 // transport.NewStream, reads "ready" through the stream, sets the termination
@@ -24,15 +38,48 @@ import (
 	"os/exec"
 	"os/signal"
 	"path/filepath"
+	"sort"
 	"strconv"
 	"strings"
 	"syscall"
 	"time"
 
+	"golang.org/x/sys/unix"
+
 	"github.com/mutagen-io/mutagen/pkg/agent/transport"
 
 	"verif/harness/internal/vlib"
 )
+
+// childLinger: the descendant of the fake agent. args = mode leashDir
+func childLinger(args []string) int {
+	if len(args) < 2 {
+		return 64
+	}
+	mode, leash := args[0], args[1]
+	signal.Ignore(syscall.SIGTERM, syscall.SIGHUP, syscall.SIGPIPE)
+	gone := make(chan struct{})
+	if mode == "dies" {
+		go func() {
+			io.Copy(io.Discard, os.Stdin) // the agent holds the only write end
+			close(gone)
+		}()
+	}
+	deadline := time.After(300 * time.Second)
+	tick := time.NewTicker(500 * time.Millisecond)
+	for {
+		select {
+		case <-gone:
+			return 0
+		case <-deadline:
+			return 0
+		case <-tick.C:
+			if _, err := os.Stat(leash); err != nil {
+				return 0
+			}
+		}
+	}
+}
 
 func childFakeAgent(args []string) int {
 	if len(args) < 3 {
@@ -41,6 +88,24 @@ func childFakeAgent(args []string) int {
 	kind := args[0]
 	delay, _ := strconv.Atoi(args[1])
 	log := args[2]
+	if len(args) >= 5 && args[3] != "none" {
+		self, _ := os.Executable()
+		lc := exec.Command(self, "child", "linger", args[3], args[4])
+		lc.SysProcAttr = &syscall.SysProcAttr{Setpgid: true}
+		if args[3] != "own" {
+			lc.Stderr = os.Stderr // inherited: one more holder of the standard error pipe
+		}
+		if args[3] == "dies" {
+			if _, err := lc.StdinPipe(); err != nil { // never written, never closed: ends with this process
+				return 71
+			}
+		}
+		if err := lc.Start(); err != nil {
+			fmt.Fprintln(os.Stderr, "linger:", err)
+			return 71
+		}
+		appendLine(log, fmt.Sprintf("child %d", lc.Process.Pid))
+	}
 	d := time.Duration(delay) * time.Millisecond
 	terms := make(chan os.Signal, 4)
 	signal.Notify(terms, syscall.SIGTERM) // handled, hence never deadly
@@ -84,10 +149,34 @@ func childFakeAgent(args []string) int {
 
 type acIn struct {
 	Kind     string `json:"kind"`
-	Delay    int    `json:"delay"` // ms
-	Td       int    `json:"td"`    // termination delay set on the stream, ms
-	Stderr   bool   `json:"stderr"`
+	Delay    int    `json:"delay"`    // ms
+	Td       int    `json:"td"`       // termination delay set on the stream, ms
+	Recv     bool   `json:"recv"`     // a standard error receiver is handed to NewStream
+	Child    string `json:"child"`    // none | inherit | own | dies
 	Watchdog int    `json:"watchdog"` // ms
+}
+
+// reapOrphan kills the lingering descendant (pid and process group) and reaps
+// it (the orchestrator is its subreaper). Reports whether it is gone.
+func reapOrphan(pid int) bool {
+	if pid <= 1 {
+		return true
+	}
+	syscall.Kill(-pid, syscall.SIGKILL)
+	syscall.Kill(pid, syscall.SIGKILL)
+	for i := 0; i < 200; i++ {
+		var ws syscall.WaitStatus
+		if wp, err := syscall.Wait4(pid, &ws, syscall.WNOHANG, nil); wp == pid || err == syscall.ECHILD {
+			if err == syscall.ECHILD && pidExists(pid) {
+				// not (yet) our child: re-parenting happens when the agent is reaped
+				time.Sleep(25 * time.Millisecond)
+				continue
+			}
+			return true
+		}
+		time.Sleep(25 * time.Millisecond)
+	}
+	return !pidExists(pid)
 }
 
 func pidExists(pid int) bool {
@@ -99,9 +188,12 @@ func runAgentCloseCase(c *vlib.Ctx, self string, in acIn) map[string]any {
 	root := c.TempDir("agent")
 	defer os.RemoveAll(root)
 	log := filepath.Join(root, "log")
-	cmd := exec.Command(self, "child", "fakeagent", in.Kind, strconv.Itoa(in.Delay), log)
+	if in.Child == "" {
+		in.Child = "none"
+	}
+	cmd := exec.Command(self, "child", "fakeagent", in.Kind, strconv.Itoa(in.Delay), log, in.Child, root)
 	var errSink io.Writer
-	if in.Stderr {
+	if in.Recv {
 		errSink = io.Discard
 	}
 	stream, err := transport.NewStream(cmd, errSink)
@@ -110,6 +202,23 @@ func runAgentCloseCase(c *vlib.Ctx, self string, in acIn) map[string]any {
 	}
 	must(cmd.Start())
 	pid := cmd.Process.Pid
+	childPid := 0
+	defer func() {
+		// whatever happened: neither the agent nor its descendant survives the case
+		if pidExists(pid) {
+			syscall.Kill(pid, syscall.SIGKILL)
+		}
+		if childPid == 0 {
+			if data, err := os.ReadFile(log); err == nil {
+				for _, ln := range strings.Split(string(data), "\n") {
+					fmt.Sscanf(ln, "child %d", &childPid)
+				}
+			}
+		}
+		if childPid > 1 && !reapOrphan(childPid) {
+			fmt.Fprintf(os.Stderr, "warning: descendant %d could not be removed\n", childPid)
+		}
+	}()
 	ready := make(chan string, 1)
 	go func() {
 		s, _ := bufio.NewReader(stream).ReadString('\n')
@@ -125,21 +234,31 @@ func runAgentCloseCase(c *vlib.Ctx, self string, in acIn) map[string]any {
 		cmd.Process.Kill()
 		vlib.Fatal("fake agent did not start")
 	}
+	if data, err := os.ReadFile(log); err == nil {
+		for _, ln := range strings.Split(string(data), "\n") {
+			fmt.Sscanf(ln, "child %d", &childPid)
+		}
+	}
+	if in.Child != "none" && childPid == 0 {
+		vlib.Fatal("fake agent reported no descendant")
+	}
 	stream.SetTerminationDelay(time.Duration(in.Td) * time.Millisecond)
 	done := make(chan error, 1)
 	t0 := time.Now()
 	go func() { done <- stream.Close() }()
-	out := map[string]any{"returned": false, "ms": 0, "alive": false, "err": "", "saweof": false, "sawterm": false}
+	out := map[string]any{"returned": false, "ms": 0, "alive": false, "err": "", "saweof": false, "sawterm": false, "childalive": false}
 	select {
 	case err := <-done:
 		out["returned"] = true
 		out["ms"] = int(time.Since(t0) / time.Millisecond)
 		out["err"] = errStr(err)
 		out["alive"] = pidExists(pid)
+		out["childalive"] = childPid > 1 && pidExists(childPid)
 	case <-time.After(time.Duration(in.Watchdog) * time.Millisecond):
 		out["ms"] = int(time.Since(t0) / time.Millisecond)
 		out["alive"] = pidExists(pid)
-		// clean up whatever is left, outside the observation
+		out["childalive"] = childPid > 1 && pidExists(childPid)
+		// clean up whatever is left, outside the observation (the deferred cleanup does the rest)
 		syscall.Kill(pid, syscall.SIGKILL)
 	}
 	if data, err := os.ReadFile(log); err == nil {
@@ -152,9 +271,11 @@ func runAgentCloseCase(c *vlib.Ctx, self string, in acIn) map[string]any {
 func runAgentClose(c *vlib.Ctx) error {
 	self := selfPath()
 	type agentSpec struct {
-		Kind string `json:"kind"`
-		At   int    `json:"at"`
-		Slow bool   `json:"slow"`
+		Kind  string `json:"kind"`
+		At    int    `json:"at"`
+		Slow  bool   `json:"slow"`
+		Child string `json:"child"`
+		Recv  bool   `json:"recv"`
 	}
 	var specs []agentSpec
 	for _, b := range c.ReadBehaviours() {
@@ -165,14 +286,30 @@ func runAgentClose(c *vlib.Ctx) error {
 	if len(specs) == 0 {
 		return fmt.Errorf("no agent behaviours exported by the model")
 	}
+	sort.Slice(specs, func(i, j int) bool {
+		return fmt.Sprint(specs[i].Child, specs[i].Recv, specs[i].Kind, specs[i].At, specs[i].Slow) < fmt.Sprint(specs[j].Child, specs[j].Recv, specs[j].Kind, specs[j].At, specs[j].Slow)
+	})
+	// orphaned descendants are re-parented to this process, which reaps them
+	if err := unix.Prctl(unix.PR_SET_CHILD_SUBREAPER, 1, 0, 0, 0); err != nil {
+		return fmt.Errorf("PR_SET_CHILD_SUBREAPER: %v", err)
+	}
 	reps := argInt(c, "reps", 1)
+	alltd := argInt(c, "alltd", 0) // 1: every termination delay for every combination
 	watchdog := argInt(c, "watchdog", 20000)
 	var cases []acIn
 	for rep := 0; rep < reps; rep++ {
 		for _, td := range []int{0, 300, 1200} {
 			for _, s := range specs {
+				// quick: the full set of termination delays for single-process agents, one
+				// (rotating) delay for each combination with a descendant
+				if alltd == 0 && s.Child != "none" && td != []int{300, 0, 1200}[(len(s.Kind)+s.At+rep)%3] {
+					continue
+				}
+				if alltd == 0 && s.Child == "none" && s.Recv != (td == 300) && td != 0 {
+					continue
+				}
 				jitter := c.Rand.Intn(150)
-				in := acIn{Kind: s.Kind, Td: td, Stderr: c.Rand.Intn(2) == 0, Watchdog: watchdog}
+				in := acIn{Kind: s.Kind, Td: td, Recv: s.Recv, Child: s.Child, Watchdog: watchdog}
 				switch s.Kind {
 				case "self":
 					// exit once phase `at` is under way: before the termination delay, during the
@@ -203,7 +340,7 @@ func runAgentClose(c *vlib.Ctx) error {
 		}
 	}
 	recs := make([]map[string]any, len(cases))
-	parallel(len(cases), 10, func(i int) { recs[i] = runAgentCloseCase(c, self, cases[i]) })
+	parallel(len(cases), 12, func(i int) { recs[i] = runAgentCloseCase(c, self, cases[i]) })
 	for i, rec := range recs {
 		c.Emit(rec)
 		c.Eval()
@@ -212,10 +349,16 @@ func runAgentClose(c *vlib.Ctx) error {
 		// non-trivial: the agent was really running when Close was called and Close had to do something
 		// (wait, close the input, signal) - i.e. everything but an agent that was already gone
 		if out["returned"] == true && (out["ms"].(int) > 20 || out["saweof"] == true) {
-			c.NonTrivial(fmt.Sprintf("%s/%d/%d", in.Kind, in.Delay, in.Td))
+			c.NonTrivial(fmt.Sprintf("%s/%d/%d/%s/%v", in.Kind, in.Delay, in.Td, in.Child, in.Recv))
 		}
 		if i%9 == 0 {
 			c.Sample(rec)
+		}
+		if in.Child != "none" {
+			c.AddExtra("cases_with_descendant", 1)
+			if in.Recv && in.Child == "inherit" {
+				c.AddExtra("cases_descendant_holds_stderr_pipe", 1)
+			}
 		}
 	}
 	c.SetExtra("behaviours_from_model", len(specs))
@@ -228,6 +371,9 @@ func replayAgentClose(c *vlib.Ctx) error {
 		In acIn `json:"in"`
 	}
 	vlib.Decode(doc["begin"], &rec)
+	if err := unix.Prctl(unix.PR_SET_CHILD_SUBREAPER, 1, 0, 0, 0); err != nil {
+		return fmt.Errorf("PR_SET_CHILD_SUBREAPER: %v", err)
+	}
 	c.Emit(runAgentCloseCase(c, selfPath(), rec.In))
 	c.Eval()
 	return nil
